@@ -13,6 +13,7 @@ class SimExecutor(Executor):
     def __init__(self, name: str):
         self.name = name
         self.jobs = 0
+        self.shut = False  # fault: the pool was shut down before the call (submission is refused, as concurrent.futures does)
 
     def submit(self, fn, /, *args, **kwargs):  # pragma: no cover - only the loop's run_in_executor is used
         raise RuntimeError("SimExecutor is driven through loop.run_in_executor only")
@@ -109,6 +110,9 @@ def install(sim, default_executor: SimExecutor):
         ex = executor if executor is not None else default_executor
         if not isinstance(ex, SimExecutor):
             raise RuntimeError(f"run_in_executor with a foreign executor {ex!r}")
+        if ex.shut:
+            sim.stats["fault:executor_shut_down"] += 1
+            raise RuntimeError("cannot schedule new futures after shutdown")
         ex.jobs += 1
         job = Job(sim, ex, func, args)
         used.append(job)
